@@ -53,12 +53,25 @@ def main():
     if out.strip():
         print("scratch worktree is not clean:", out)
         return 2
+    sh(["git", "-C", str(wt), "checkout", "-q", "--detach", "main"])     # the scratch worktree follows /repo's HEAD
+    _, head = sh(["git", "-C", str(wt), "rev-parse", "--short", "HEAD"])
+    meta["repo_commit"] = head.strip()
     rc0, out0 = sh(["/venv/bin/python", str(src / "demo.py")], cwd=wt, env=env_wt, timeout=600)
     meta["steps"]["demo_on_clean_tree"] = {"rc": rc0, "tail": out0[-400:]}
     rc, out = sh(["git", "-C", str(wt), "apply", str(src / "patch.diff")])
     if rc != 0:
-        print("patch does not apply:", out)
-        return 2
+        # the source moved on (fix: commits) since the patch was made: try a three-way application
+        rc, out = sh(["git", "-C", str(wt), "apply", "--3way", str(src / "patch.diff")])
+        _, st = sh(["git", "-C", str(wt), "diff", "--name-only", "--diff-filter=U"])
+        if rc != 0 or st.strip():
+            sh(["git", "-C", str(wt), "reset", "-q", "--hard"])
+            print("patch does not apply to the current tree (needs porting):", out[-300:])
+            return 2
+        sh(["git", "-C", str(wt), "reset", "-q"])      # keep the changes in the working tree only
+        _, ported = sh(["git", "-C", str(wt), "diff"])
+        (src / "patch.orig.diff").write_text((src / "patch.diff").read_text())
+        (src / "patch.diff").write_text(ported + "\n")
+        meta["ported_by_3way"] = True
     try:
         rc1, out1 = sh(["/venv/bin/python", str(src / "demo.py")], cwd=wt, env=env_wt, timeout=600)
         meta["steps"]["demo_with_change"] = {"rc": rc1, "tail": out1[-600:]}
@@ -83,7 +96,7 @@ def main():
             rcr, outr = sh([str(VERIF / "check"), "replay", m.group(1)], cwd=VERIF, env=env, timeout=600)
             meta["steps"]["replay_with_change"] = {"rc": rcr, "verdict": [l for l in outr.splitlines() if l.startswith("verdict")]}
     finally:
-        sh(["git", "-C", str(wt), "checkout", "--", "."])
+        sh(["git", "-C", str(wt), "reset", "-q", "--hard"])
         sh(["git", "-C", str(wt), "clean", "-fdq"])
     meta["confirmed"] = (rc0 == 0 and meta["steps"]["demo_with_change"]["rc"] != 0
                          and meta["steps"].get("suite_with_change", {}).get("baseline_tests_not_passing", 0) == 0)
